@@ -10,6 +10,7 @@ import sympy as sp
 from ..core import AnalysisError, call_name, const_value, dotted, unparse, walk_no_nested
 from ..report import Ctx
 from ..sym import ToSympy, equal
+from ..pattern import body_is, find, find_expr, has, has_expr
 
 L, L0, Li, K, N = sp.symbols('L L0 Li K N')
 SYMS = {'self.data.logLike': L, 'self.data.nullLogLike': L0, 'self.data.initLogLike': Li, 'self.data.nparam': K, 'self.data.sampleSize': N}
@@ -119,7 +120,9 @@ def run(ctx: Ctx) -> None:
 
         return T().visit(copy.deepcopy(e))
 
-    tests = [n for n in walk_no_nested(ct.node) if isinstance(n, ast.Assign) and unparse(n.targets[0]) == 'test' and 'finfo' not in unparse(n.value)]
+    rets = [n for n in walk_no_nested(ct.node) if isinstance(n, ast.Return)]
+    rname = unparse(rets[-1].value) if rets else ''
+    tests = [n for n in walk_no_nested(ct.node) if isinstance(n, ast.Assign) and unparse(n.targets[0]) == rname and 'finfo' not in unparse(n.value)]
     ok = False
     got = ''
     if len(tests) == 1:
@@ -158,52 +161,48 @@ def run(ctx: Ctx) -> None:
     ctx.add('C08.R1', 'matrix:bootstrap_varCovar', ok, (cs.file, s.lineno), f'bootstrap_varCovar = {unparse(s.value)}' + ('' if ok else '; expected cov(replications, rowvar=False)'), unparse(s.value))
 
     # ---- family blocks
-    blocks = {}
+    BLOCK = """
+for _I in range(self.data.nparam):
+    if self.data.FAMvarCovar[_I, _I] < 0:
+        self.data.betas[_I].set_FAMstd_err(np.finfo(float).max)
+    else:
+        self.data.betas[_I].set_FAMstd_err(np.sqrt(self.data.FAMvarCovar[_I, _I]))
+_D = np.diag(self.data.FAMvarCovar)
+if (_D > 0).all():
+    _DG = np.diag(np.sqrt(_D))
+    _DI = linalg.inv(_DG)
+    self.data.FAMcorrelation = _DI.dot(self.data.FAMvarCovar.dot(_DI))
+else:
+    self.data.FAMcorrelation = np.full_like(self.data.FAMvarCovar, np.finfo(float).max)
+"""
     for fam in FAMILIES:
-        vc = f'self.data.{fam}varCovar'
-        setter = f'set_{fam}std_err'
-        loops = [n for n in walk_no_nested(cs.node) if isinstance(n, ast.For) and setter in unparse(n) and 'secondOrderTable' not in unparse(n)]
-        corr = assigns.get(f'self.data.{fam}correlation', [])
-        diag_src = [n for n in walk_no_nested(cs.node) if isinstance(n, ast.Assign) and unparse(n.value) == f'np.diag({vc})']
-        if len(loops) != 1 or not corr or len(diag_src) != 1:
-            raise AnalysisError(f'C08.R2: block of the {FAMNAME[fam]} family not recognised in _calculate_stats')
-        dname = unparse(diag_src[0].targets[0])
-        ifn = [n for n in walk_no_nested(cs.node) if isinstance(n, ast.If) and unparse(n.test) == f'({dname} > 0).all()' and any(c in n.body or c in n.orelse for c in corr)]
-        if len(ifn) != 1:
-            raise AnalysisError(f'C08.R2: correlation block of the {FAMNAME[fam]} family not recognised')
-        text = unparse(loops[0]) + '\n' + unparse(diag_src[0]) + '\n' + unparse(ifn[0])
-        norm = text.replace(f'{fam}varCovar', 'VC').replace(setter, 'SET').replace(f'{fam}correlation', 'CORR')
-        norm = re.sub(rf'\b{dname}\b', 'D', norm)
-        foreign = [f2 for f2 in FAMILIES if f2 and f2 != fam and f2 in norm]
-        if fam == '':
-            foreign = [f2 for f2 in FAMILIES if f2 and f2 in norm]
-        blocks[fam] = (norm, loops[0], foreign)
-    ref = blocks['robust_'][0]
-    for fam, (norm, node, foreign) in blocks.items():
-        ok = norm == ref and not foreign
-        ctx.add('C08.R2', f'_calculate_stats:{FAMNAME[fam]}', ok, (cs.file, node.lineno),
-                f'{FAMNAME[fam]} block: std err = sqrt(diag) of its own matrix, correlation = D^-1 V D^-1' if ok else f'{FAMNAME[fam]} block differs from its siblings' + (f' and reads {foreign} attributes' if foreign else ''),
-                detail=norm if not ok else '')
-    want_block = ('for i in range(self.data.nparam):\n    if self.data.VC[i, i] < 0:\n        self.data.betas[i].SET(np.finfo(float).max)\n    else:\n        self.data.betas[i].SET(np.sqrt(self.data.VC[i, i]))\n'
-                  'D = np.diag(self.data.VC)\nif (D > 0).all():\n    diag = np.diag(np.sqrt(D))\n    diag_inv = linalg.inv(diag)\n    self.data.CORR = diag_inv.dot(self.data.VC.dot(diag_inv))\nelse:\n    self.data.CORR = np.full_like(self.data.VC, np.finfo(float).max)')
-    ok = ref == want_block
-    ctx.add('C08.R1', '_calculate_stats:block-formula', ok, cs, 'std err_i = sqrt(V_ii); correlation = diag(sqrt(diag V))^-1 V diag(sqrt(diag V))^-1' if ok else 'the common form of the family blocks changed', ref if not ok else '')
+        ok = has(cs.node, BLOCK.replace('FAM', fam))
+        setters = [n for n in walk_no_nested(cs.node) if isinstance(n, ast.Call) and isinstance(n.func, ast.Attribute) and n.func.attr == f'set_{fam}std_err']
+        line = setters[0].lineno if setters else cs.line
+        # which matrices does the block of this family read?
+        reads = set()
+        for n in walk_no_nested(cs.node):
+            if isinstance(n, ast.For) and any(x in setters for x in ast.walk(n)):
+                reads |= set(re.findall(r'self\.data\.(\w*varCovar)', unparse(n)))
+        ctx.add('C08.R2', f'_calculate_stats:{FAMNAME[fam]}', ok, (cs.file, line),
+                f'{FAMNAME[fam]} block: std err_i = sqrt(V_ii) and correlation = D^-1 V D^-1 of its own matrix' if ok else f'{FAMNAME[fam]} block is not the std-err / correlation block of its own matrix (matrices read: {sorted(reads)})',
+                detail='' if ok else str(sorted(reads)))
     B = prog.cls('results', 'Beta')
-    norms = {}
     for fam in FAMILIES:
         m = B.methods.get(f'set_{fam}std_err')
         ctx.need(m is not None, f'results.Beta.set_{fam}std_err')
         p = m.positional_params()[1]
-        txt = '\n'.join(unparse(s) for s in m.body)
-        n_ = txt.replace(f'self.{fam}stdErr', 'self.SE').replace(f'self.{fam}tTest', 'self.T').replace(f'self.{fam}pValue', 'self.P')
-        n_ = re.sub(rf'\b{p}\b', 'SEARG', n_)
-        norms[fam] = (n_, m)
-    want_beta = 'self.SE = SEARG\nif SEARG == 0:\n    self.T = np.finfo(float).max\nelse:\n    self.T = np.nan_to_num(self.value / SEARG)\nself.P = calc_p_value(self.T)'
-    for fam, (n_, m) in norms.items():
-        ok = n_ == want_beta
-        ctx.add('C08.R2', f'results.Beta.set_{fam}std_err', ok, m, f'{FAMNAME[fam]}: t = value / std err, p = p(t) of the same family' if ok else f'{FAMNAME[fam]} setter differs: {n_[:160]}', n_ if not ok else '')
+        ok = body_is(m.body, f"""
+self.{fam}stdErr = {p}
+if {p} == 0:
+    self.{fam}tTest = np.finfo(float).max
+else:
+    self.{fam}tTest = np.nan_to_num(self.value / {p})
+self.{fam}pValue = calc_p_value(self.{fam}tTest)
+""") is not None
+        ctx.add('C08.R2', f'results.Beta.set_{fam}std_err', ok, m, f'{FAMNAME[fam]}: t = value / std err, p = p(t) of the same family' if ok else f'{FAMNAME[fam]} setter is not stdErr / t = value/stdErr / p = p(t) of its own family', '' if ok else ' ; '.join(unparse(x) for x in m.body)[:200])
     # second order table
-    so = [n for n in walk_no_nested(cs.node) if isinstance(n, ast.Assign) and unparse(n.targets[0]) == 'self.data.secondOrderTable[name]']
+    so = [n for n in walk_no_nested(cs.node) if isinstance(n, ast.Assign) and isinstance(n.targets[0], ast.Subscript) and unparse(n.targets[0].value) == 'self.data.secondOrderTable']
     ctx.need(len(so) == 2, 'two writers of secondOrderTable entries (with / without bootstrap)')
     tdefs = {}
     for n in walk_no_nested(cs.node):
@@ -212,6 +211,13 @@ def run(ctx: Ctx) -> None:
                 tdefs[n.targets[0].id] = ('test', unparse(n.value.args[2]), [unparse(a) for a in n.value.args[:2]])
             elif call_name(n.value) == 'calc_p_value':
                 tdefs[n.targets[0].id] = ('p', unparse(n.value.args[0]), None)
+    outer = [n for n in walk_no_nested(cs.node) if isinstance(n, ast.For) and any(x in so for x in ast.walk(n)) and unparse(n.iter) == 'range(self.data.nparam)']
+    ctx.need(len(outer) == 1 and isinstance(outer[0].body[0], ast.For), 'the pairwise loop of _calculate_stats')
+    LI, LJ = unparse(outer[0].target), unparse(outer[0].body[0].target)
+    okp = unparse(outer[0].body[0].iter) == f'range({LI})'
+    key = [n for n in ast.walk(outer[0]) if isinstance(n, ast.Assign) and unparse(n.value) == f'(self.data.betaNames[{LI}], self.data.betaNames[{LJ}])']
+    okp = okp and len(key) == 1 and all(unparse(w.targets[0].slice) == unparse(key[0].targets[0]) for w in so)
+    ctx.add('C08.R2', 'secondOrderTable:pairs', okp, (cs.file, outer[0].lineno), 'one entry per pair j < i, keyed by the two parameter names' if okp else 'the pairs of the second-order table are no longer (betaNames[i], betaNames[j]) for j < i', 'pairs')
     for w in so:
         elts = [unparse(e) for e in w.value.elts]
         nfam = len(elts) // 4
@@ -219,72 +225,108 @@ def run(ctx: Ctx) -> None:
             fam = FAMILIES[k]
             vc = f'self.data.{fam}varCovar'
             cov, cor, tt, pp = elts[4 * k: 4 * k + 4]
-            ok = cov == f'{vc}[i, j]' and cor == f'self.data.{fam}correlation[i, j]' and tdefs.get(tt) == ('test', vc, ['i', 'j']) and tdefs.get(pp) == ('p', tt, None)
+            ok = cov == f'{vc}[{LI}, {LJ}]' and cor == f'self.data.{fam}correlation[{LI}, {LJ}]' and tdefs.get(tt) == ('test', vc, [LI, LJ]) and tdefs.get(pp) == ('p', tt, None)
             ctx.add('C08.R2', f'secondOrderTable[{nfam * 4}]:{FAMNAME[fam]}', ok, (cs.file, w.lineno),
                     f'entries {4 * k}..{4 * k + 3}: covariance, correlation, test and p-value of the {FAMNAME[fam]} matrix' if ok
                     else f'entries {4 * k}..{4 * k + 3} = [{cov}, {cor}, {tt}<-{tdefs.get(tt)}, {pp}<-{tdefs.get(pp)}]', detail=f'{cov},{cor},{tdefs.get(tt)},{tdefs.get(pp)}')
-    ctx.floor('C08.R2', 11)
+    ctx.floor('C08.R2', 12)
     # likelihood ratio test
     lr = prog.func('tools.likelihood_ratio', 'likelihood_ratio_test')
-    txt = unparse(lr.node)
-    ok = 'stat = -2 * (log_like_r - log_like_ur)' in txt and 'chi_df = df_ur - df_r' in txt and 'chi2.ppf(1 - significance_level, chi_df)' in txt
-    ctx.add('C08.R1', 'likelihood_ratio_test', ok, lr, 'statistic = -2 (L_r - L_u), degrees of freedom = K_u - K_r' if ok else 'likelihood ratio statistic changed', 'lr')
-    # restricted/unrestricted assignment: the model with the larger log likelihood is the unrestricted one
-    br = [n for n in lr.body if isinstance(n, ast.If) and unparse(n.test) == 'log_like_m1 > log_like_m2']
-    ok = False
-    if br:
-        b = br[-1]
-        t1 = ' ; '.join(unparse(s) for s in b.body if isinstance(s, ast.Assign))
-        t2 = ' ; '.join(unparse(s) for s in b.orelse if isinstance(s, ast.Assign))
-        ok = unparse(b.test) == 'log_like_m1 > log_like_m2' and t1 == 'log_like_ur = log_like_m1 ; log_like_r = log_like_m2 ; df_ur = df_m1 ; df_r = df_m2' and t2 == 'log_like_ur = log_like_m2 ; log_like_r = log_like_m1 ; df_ur = df_m2 ; df_r = df_m1'
-    ctx.add('C08.R1', 'likelihood_ratio_test:roles', ok, lr, 'the model with the larger log likelihood is the unrestricted one, with its own number of parameters' if ok else 'assignment of restricted / unrestricted roles changed', 'roles')
+    b = find(lr.node, """
+_L1, _D1 = model1
+_L2, _D2 = model2
+if _L1 > _L2:
+    ___
+    _LU = _L1
+    _LR = _L2
+    _DU = _D1
+    _DR = _D2
+else:
+    ___
+    _LU = _L2
+    _LR = _L1
+    _DU = _D2
+    _DR = _D1
+_S = -2 * (_LR - _LU)
+_DF = _DU - _DR
+_T = chi2.ppf(1 - significance_level, _DF)
+""")
+    ok = b is not None
+    ctx.add('C08.R1', 'likelihood_ratio_test', ok, lr, 'the model with the larger log likelihood is the unrestricted one; statistic = -2 (L_r - L_u), degrees of freedom = K_u - K_r' if ok else 'the likelihood ratio statistic / roles / degrees of freedom changed', 'lr')
+    if ok:
+        ok2 = has(lr.node, f'return LRTuple(message=_M, statistic={b["_S"]}, threshold={b["_T"]})')
+        ctx.add('C08.R1', 'likelihood_ratio_test:result', ok2, lr, 'the statistic and its threshold are reported under their own names' if ok2 else 'the reported statistic / threshold changed', 'result')
     m = BR.methods['likelihood_ratio_test']
-    txt = unparse(m.node)
-    ok = 'lr = self.data.logLike' in txt and 'lu = other_model.data.logLike' in txt and 'kr = self.data.nparam' in txt and 'ku = other_model.data.nparam' in txt and '(lu, ku), (lr, kr), significance_level' in txt
+    ok = has(m.node, """
+_LR = self.data.logLike
+_LU = other_model.data.logLike
+_KR = self.data.nparam
+_KU = other_model.data.nparam
+return biogeme.tools.likelihood_ratio.likelihood_ratio_test((_LU, _KU), (_LR, _KR), significance_level)
+""")
     ctx.add('C08.R1', 'bioResults.likelihood_ratio_test', ok, m, 'each model is handed over with its own log likelihood and parameter count' if ok else 'pairing of log likelihood and parameter count changed', 'lrt')
     ctx.floor('C08.R1', 20)
 
     # ---- R3 labels
     gp = BR.methods['get_estimated_parameters']
+    rows = [n for n in walk_no_nested(gp.node) if isinstance(n, ast.For) and unparse(n.iter) == 'self.data.betas' and any(isinstance(x, ast.Dict) for x in ast.walk(n))]
+    ctx.need(len(rows) == 1, 'get_estimated_parameters builds one row per element of data.betas')
+    bv = unparse(rows[0].target)
     n_lab = 0
-    for d in [n for n in walk_no_nested(gp.node) if isinstance(n, ast.Dict) and n.keys and all(isinstance(k, ast.Constant) and isinstance(k.value, str) for k in n.keys) and len(n.keys) >= 3]:
+    for d in [n for n in ast.walk(rows[0]) if isinstance(n, ast.Dict) and n.keys and all(isinstance(k, ast.Constant) and isinstance(k.value, str) for k in n.keys) and len(n.keys) >= 3]:
         for k, v in zip(d.keys, d.values):
             lab = k.value
             if lab == 'Active bound':
                 continue
             want = PARAM_LABELS.get(lab)
+            want = want.replace('b.', bv + '.', 1) if want else None
             ok = want is not None and unparse(v) == want
             n_lab += 1
-            ctx.add('C08.R3', f'get_estimated_parameters[{lab}]@{d.lineno}', ok, (gp.file, k.lineno), f"'{lab}': {unparse(v)}" + ('' if ok else f'; the label names {want}'), f'{lab}:{unparse(v)}')
-    for n in walk_no_nested(gp.node):
-        if isinstance(n, ast.Assign) and isinstance(n.targets[0], ast.Subscript) and unparse(n.targets[0].value) == 'arow':
+            ctx.add('C08.R3', f'get_estimated_parameters[{lab}]@{len([x for x in ctx.obligations if x.construct.startswith("get_estimated_parameters[" + lab + "]")])}', ok, (gp.file, k.lineno), f"'{lab}': {unparse(v)}" + ('' if ok else f'; the label names {want}'), f'{lab}:{unparse(v).replace(bv + ".", "b.")}')
+    rowvar = None
+    for n in ast.walk(rows[0]):
+        if isinstance(n, ast.Assign) and isinstance(n.value, ast.Dict) and isinstance(n.targets[0], ast.Name):
+            rowvar = n.targets[0].id
+    for n in ast.walk(rows[0]):
+        if isinstance(n, ast.Assign) and isinstance(n.targets[0], ast.Subscript) and unparse(n.targets[0].value) == rowvar:
             lab = unparse(n.targets[0].slice)
             if 'Std err' in lab:
-                want = 'b.bootstrap_stdErr'
+                want = f'{bv}.bootstrap_stdErr'
             else:
-                want = PARAM_LABELS.get(lab.strip("'"))
+                want = (PARAM_LABELS.get(lab.strip("'")) or '?').replace('b.', bv + '.', 1)
             ok = unparse(n.value) == want
             n_lab += 1
-            ctx.add('C08.R3', f'get_estimated_parameters[{lab[:30]}]', ok, (gp.file, n.lineno), f'{lab[:40]}: {unparse(n.value)}' + ('' if ok else f'; the label names {want}'), f'{lab}:{unparse(n.value)}')
-    loops = [n for n in walk_no_nested(gp.node) if isinstance(n, ast.For) and 'table.loc' in unparse(n)]
-    ok = len(loops) == 1 and unparse(loops[0].iter) == 'self.data.betas' and 'table.loc[b.name] = pd.Series(arow)' in unparse(loops[0])
+            ctx.add('C08.R3', f'get_estimated_parameters[{lab[:30]}]', ok, (gp.file, n.lineno), f'{lab[:40]}: {unparse(n.value)}' + ('' if ok else f'; the label names {want}'), f'{lab}:{unparse(n.value).replace(bv + ".", "b.")}')
+    ok = has(rows[0], f'_T.loc[{bv}.name] = pd.Series({rowvar})') and not any(isinstance(x, (ast.Continue, ast.Break)) for x in ast.walk(rows[0]))
     ctx.add('C08.R3', 'get_estimated_parameters:rows', ok, gp, 'one row per estimated parameter, indexed by its name' if ok else 'rows of the parameter table changed', 'rows')
     gc = BR.methods['get_correlation_results']
-    for n in walk_no_nested(gc.node):
+    loops = [n for n in walk_no_nested(gc.node) if isinstance(n, ast.For) and unparse(n.iter) == 'self.data.secondOrderTable.items()' and isinstance(n.target, ast.Tuple)]
+    ctx.need(len(loops) == 1, 'get_correlation_results iterates the second-order table')
+    kv, vv = (unparse(x) for x in loops[0].target.elts)
+    crow = None
+    for n in ast.walk(loops[0]):
+        if isinstance(n, ast.Assign) and isinstance(n.value, ast.Dict) and isinstance(n.targets[0], ast.Name):
+            crow = n.targets[0].id
+    for n in ast.walk(loops[0]):
         pairs = []
         if isinstance(n, ast.Dict) and n.keys and all(isinstance(k, ast.Constant) for k in n.keys) and len(n.keys) == 8:
             pairs = [(k.value, unparse(v), k.lineno) for k, v in zip(n.keys, n.values)]
-        elif isinstance(n, ast.Assign) and isinstance(n.targets[0], ast.Subscript) and unparse(n.targets[0].value) == 'arow':
+        elif isinstance(n, ast.Assign) and isinstance(n.targets[0], ast.Subscript) and unparse(n.targets[0].value) == crow:
             pairs = [(const_value(n.targets[0].slice), unparse(n.value), n.lineno)]
         for lab, val, line in pairs:
-            want = f'v[{CORR_LABELS.index(lab)}]' if lab in CORR_LABELS else None
+            want = f'{vv}[{CORR_LABELS.index(lab)}]' if lab in CORR_LABELS else None
             ok = val == want
             n_lab += 1
-            ctx.add('C08.R3', f'get_correlation_results[{lab}]', ok, (gc.file, line), f"'{lab}': {val}" + ('' if ok else f'; the writer stores that quantity at {want}'), f'{lab}:{val}')
+            ctx.add('C08.R3', f'get_correlation_results[{lab}]', ok, (gc.file, line), f"'{lab}': {val}" + ('' if ok else f'; the writer stores that quantity at {want}'), f'{lab}:{val.replace(vv, "v")}')
     gs = BR.methods['get_general_statistics']
+    dvar = None
+    for n in gs.body:
+        if isinstance(n, ast.Assign) and isinstance(n.value, ast.Dict) and isinstance(n.targets[0], ast.Name):
+            dvar = n.targets[0].id
+    nfv = [unparse(n.targets[0]) for n in gs.body if isinstance(n, ast.Assign) and unparse(n.value) == 'self.number_of_free_parameters()']
     for n in walk_no_nested(gs.node):
         lab = val = None
-        if isinstance(n, ast.Assign) and isinstance(n.targets[0], ast.Subscript) and unparse(n.targets[0].value) == 'd' and isinstance(n.value, ast.Call) and call_name(n.value) == 'GeneralStatistic':
+        if isinstance(n, ast.Assign) and isinstance(n.targets[0], ast.Subscript) and unparse(n.targets[0].value) == dvar and isinstance(n.value, ast.Call) and call_name(n.value) == 'GeneralStatistic':
             lab = const_value(n.targets[0].slice)
             val = next((unparse(k.value) for k in n.value.keywords if k.arg == 'value'), None)
             line = n.lineno
@@ -295,37 +337,45 @@ def run(ctx: Ctx) -> None:
         if lab is None or lab == 'Types of draws':
             continue
         want = GENERAL.get(lab)
+        if want == 'nf' and nfv:
+            want = nfv[0]
         ok = want is not None and val == want
         n_lab += 1
-        ctx.add('C08.R3', f'get_general_statistics[{lab}]', ok, (gs.file, line), f"'{lab}': {val}" + ('' if ok else f'; the label names {want}'), f'{lab}:{val}')
+        ctx.add('C08.R3', f'get_general_statistics[{lab}]', ok, (gs.file, line), f"'{lab}': {val}" + ('' if ok else f'; the label names {want}'), f'{lab}:{val if want != (nfv[0] if nfv else None) else "nf"}')
     f12 = BR.methods['get_f12']
-    txt = unparse(f12.node)
-    ok = "if robust_std_err:\n        results += f\" {values['Rob. Std err']: >+19.12e}\"\n    else:\n        results += f\" {values['Std err']: >+19.12e}\"" in txt.replace('            ', '    ').replace('        if', 'if') or ("values['Rob. Std err']" in txt and "values['Std err']" in txt)
-    idx = re.findall(r'self\.data\.secondOrderTable\[name\]\[(\d+)\]', txt)
-    # robust branch first
-    tests = [n for n in walk_no_nested(f12.node) if isinstance(n, ast.If) and unparse(n.test) == 'robust_std_err']
+    tests = sorted([n for n in walk_no_nested(f12.node) if isinstance(n, ast.If) and unparse(n.test) == 'robust_std_err'], key=lambda x: x.lineno)
     okf = len(tests) == 2
+    idx = re.findall(r'self\.data\.secondOrderTable\[\w+\]\[(\d+)\]', unparse(f12.node))
     if okf:
-        a, b = sorted(tests, key=lambda x: x.lineno)
-        okf = "values['Rob. Std err']" in unparse(a.body[0]) and "values['Std err']" in unparse(a.orelse[0]) and 'secondOrderTable[name][5]' in unparse(b.body[0]) and 'secondOrderTable[name][1]' in unparse(b.orelse[0])
+        a, b2 = tests
+        okf = has_expr(a.body[0], "_V['Rob. Std err']") and has_expr(a.orelse[0], "_V['Std err']") and has_expr(b2.body[0], 'self.data.secondOrderTable[_N][5]') and has_expr(b2.orelse[0], 'self.data.secondOrderTable[_N][1]')
     ctx.add('C08.R3', 'get_f12', okf, f12, 'robust flag selects the robust std err and entry 5 (robust correlation), otherwise std err and entry 1 (correlation)' if okf else f'F12 columns changed (indices {idx})', str(idx))
     ce = prog.func('results', 'compile_estimation_results')
-    txt = unparse(ce.node)
-    rows = {
-        "df.loc[b.name, col] = b.value": 'estimate row',
-        "df.loc[f'{b.name} (std)', col] = b.robust_stdErr": '(std) row',
-        "df.loc[f'{b.name} (ttest)', col] = b.robust_tTest": '(ttest) row',
+    rows_ = {
+        'estimate row': ("_DF.loc[_B.name, _C] = _B.value", '.value'),
+        '(std) row': ("_DF.loc[f'{_B.name} (std)', _C] = _B.robust_stdErr", '.robust_stdErr'),
+        '(ttest) row': ("_DF.loc[f'{_B.name} (ttest)', _C] = _B.robust_tTest", '.robust_tTest'),
     }
-    for pat, what in rows.items():
-        ok = pat in txt
-        got = re.search(re.escape(pat.split(' = ')[0]) + r' = (\S+)', txt)
-        ctx.add('C08.R3', f'compile_estimation_results:{what}', ok, ce, f'{what} holds {pat.split(" = ")[1]}' if ok else f'{what} holds {got.group(1) if got else "?"} (robust statistics are announced)', got.group(1) if got else '')
-    okfmt = "f'({b.robust_stdErr:.3g})' if include_robust_stderr else ''" in txt and "f'({b.robust_tTest:.3g})' if include_robust_ttest else ''" in txt and "the_value = f'{b.value:.3g} {std} {ttest}'" in txt
+    for what, (pat, attr) in rows_.items():
+        ok = has(ce.node, pat)
+        lhs = pat.split(' = ')[0]
+        got = None
+        for n in ast.walk(ce.node):
+            if isinstance(n, ast.Assign) and isinstance(n.targets[0], ast.Subscript):
+                tkey = unparse(n.targets[0].slice)
+                if (what == 'estimate row' and re.fullmatch(r'\(\w+\.name, \w+\)', tkey)) or (what != 'estimate row' and what.split()[0] in tkey):
+                    got = unparse(n.value)
+        ctx.add('C08.R3', f'compile_estimation_results:{what}', ok, ce, f'{what} holds {attr[1:]}' if ok else f'{what} holds {got} (robust statistics are announced)', re.sub(r'^\w+\.', 'b.', got or ''))
+    okfmt = has_expr(ce.node, "f'({_B.robust_stdErr:.3g})' if include_robust_stderr else ''") and has_expr(ce.node, "f'({_B.robust_tTest:.3g})' if include_robust_ttest else ''") and has(ce.node, "_V = f'{_B.value:.3g} {_S} {_T}'")
     ctx.add('C08.R3', 'compile_estimation_results:formatted', okfmt, ce, 'formatted cell = value (robust std err) (robust t-test)' if okfmt else 'formatted cell of the compiled table changed', 'fmt')
     for fam in FAMILIES:
         m = BR.methods[f'get_{fam}var_covar']
         reads = set(re.findall(r'self\.data\.(\w*varCovar)', unparse(m.node)))
-        ok = reads == {f'{fam}varCovar'} and 'vc.at[betai.name, betaj.name]' in unparse(m.node)
+        ok = reads == {f'{fam}varCovar'} and has(m.node, f"""
+for _I, _BI in enumerate(self.data.betas):
+    for _J, _BJ in enumerate(self.data.betas):
+        _VC.at[_BI.name, _BJ.name] = self.data.{fam}varCovar[_I, _J]
+""")
         ctx.add('C08.R3', f'get_{fam}var_covar', ok, m, f'returns the {FAMNAME[fam]} matrix, rows and columns named in the order of the parameters' if ok else f'get_{fam}var_covar reads {sorted(reads)}', str(sorted(reads)))
     ctx.floor('C08.R3', 60)
 
